@@ -181,6 +181,10 @@ func concPart(c *fw.Ctx, only *concCase) {
 			if ex.sched.Horizon {
 				c.Cap("scheduler horizon reached in scenario " + sc.Name)
 			}
+			if ex.sched.Deadlock {
+				c.Violation("C17:conc:deadlock:"+sc.Name, "schedules", fmt.Sprintf("scenario %s: unfinished threads but none runnable under schedule %v", sc.Name, ex.sched.Schedule), concCase{sc, ch.Choices()})
+				return
+			}
 			for t := range ex.obs {
 				for _, o := range ex.obs[t] {
 					if o.Panic != "" {
